@@ -339,6 +339,9 @@ Definition pod_ok (p : pod) : Prop :=
   Forall good_status (p_istat p) /\
   good (p_overhead p) /\
   good (default ∅ (p_plreq p)) /\
+  good (default ∅ (p_pstat p)) /\
+  good (p_palloc p) /\
+  Forall good (p_claims p) /\
   Forall (fun c => c_name c ∉ map cs_name (p_istat p)) (p_containers p) /\
   Forall (fun c => c_name c ∉ map cs_name (p_cstat p)) (p_inits p) /\
   map_Forall (fun k _ => negb (fixed k) && plsup k && negb (tracked k) = false) (default ∅ (p_plreq p)).
@@ -399,12 +402,21 @@ Proof.
   apply init_step_sim; assumption.
 Qed.
 
-(* aggregateAllContainerResourceRequests = AggregateContainerRequests, converted, + pods *)
-Lemma aggregate_sim ippvs o p :
-  pod_ok p -> o_status o = ippvs -> (o_dra o = true -> p_claims p = []) ->
-  exists X, vc_aggregate tracked ippvs p = add_scalar X pods_name 1 /\ sim X (k8s_aggregate o p).
+Lemma claims_sim cls : forall r l,
+  Forall good cls -> sim r l ->
+  sim (fold_left (fun acc cl => add acc (new_resource cl)) cls r) (fold_left add_rl cls l).
 Proof.
-  intros (Hcs & His & Hcst & Hist & _ & _ & Hs1 & Hs2 & _) Ho Hdra.
+  induction cls as [|c cls IH]; intros r l Hg Hs; [exact Hs|].
+  apply Forall_cons in Hg as [? ?]. cbn [fold_left]. apply IH; [assumption|].
+  apply sim_add; [assumption|apply sim_new; assumption].
+Qed.
+
+(* aggregateAllContainerResourceRequests = AggregateContainerRequests, converted, + pods *)
+Lemma aggregate_sim ippvs dra o p :
+  pod_ok p -> o_status o = ippvs -> o_dra o = dra ->
+  exists X, vc_aggregate tracked ippvs dra p = add_scalar X pods_name 1 /\ sim X (k8s_aggregate o p).
+Proof.
+  intros (Hcs & His & Hcst & Hist & _ & _ & _ & _ & Hcl & Hs1 & Hs2 & _) Ho Hdra.
   unfold vc_aggregate, k8s_aggregate.
   set (inf := resize_infeasible (p_conds p)).
   set (sm := status_map_from (status_map (p_cstat p)) (p_istat p)).
@@ -426,9 +438,11 @@ Proof.
     destruct (status_map (p_istat p) !! c_name c); [reflexivity|].
     unfold status_map. rewrite status_map_from_notin by exact Hc. rewrite lookup_empty. reflexivity. }
   { split; [|split]; simpl; try assumption; apply sim_empty. }
-  simpl in Ha, Hi. exists (set_max a i). split; [reflexivity|].
+  simpl in Ha, Hi.
   assert (sim (set_max a i) (max_rl a' i')) as Hm by (apply sim_max; assumption).
-  destruct (o_dra o); [|exact Hm]. rewrite Hdra by reflexivity. exact Hm.
+  rewrite Hdra. destruct dra.
+  - eexists. split; [reflexivity|]. apply claims_sim; assumption.
+  - eexists. split; [reflexivity|]. exact Hm.
 Qed.
 
 (* ---------- pod-level resources and overhead ---------- *)
@@ -441,33 +455,53 @@ Proof. destruct x; reflexivity. Qed.
 Lemma bind_sc_conv_mem (x : option Z) : x ≫= sc_conv mem_name = None.
 Proof. destruct x; reflexivity. Qed.
 
-Lemma amend_sim plr o p X L :
-  pod_ok p -> o_skip_pl o = negb plr ->
-  (o_ippl o && o_status o = true -> p_pstat p = None) ->
-  sim X L -> sim (vc_amend tracked plsup plr X p) (k8s_finish plsup o p L).
+Lemma good_pod_level_reqs ippvs ippl p :
+  good (default ∅ (p_plreq p)) -> good (default ∅ (p_pstat p)) -> good (p_palloc p) ->
+  good (vc_pod_level_reqs ippvs ippl p).
 Proof.
-  intros (_ & _ & _ & _ & Hoh & Hpl & _ & _ & Htr) Hskip Hippl [GL (Rc & Rm & Rs)].
-  unfold vc_amend, k8s_finish. rewrite Hskip, negb_involutive.
+  intros Hl Hs Ha. unfold vc_pod_level_reqs. destruct (ippl && ippvs); [|assumption].
+  destruct (p_pstat p) as [act|]; [|assumption]. apply good_determine; assumption.
+Qed.
+
+Lemma amend_sim ippvs plr ippl o p X L :
+  pod_ok p -> o_skip_pl o = negb plr -> o_ippl o = ippl -> o_status o = ippvs ->
+  sim X L -> sim (vc_amend tracked plsup ippvs plr ippl X p) (k8s_finish plsup o p L).
+Proof.
+  intros (_ & _ & _ & _ & Hoh & Hpl & Hpst & Hpal & _ & _ & _ & Htr) Hskip Hoi Hos [GL (Rc & Rm & Rs)].
+  unfold vc_amend, k8s_finish. rewrite Hskip, negb_involutive, Hoi, Hos.
   apply sim_add; [|apply sim_new; exact Hoh].
   destruct (plr && pl_requests_set plsup p) eqn:Eset.
   2: { split; [exact GL|]. repeat split; simpl; assumption. }
+  pose proof (good_pod_level_reqs ippvs ippl p Hpl Hpst Hpal) as GE.
+  set (E := vc_pod_level_reqs ippvs ippl p) in *.
   set (l := default ∅ (p_plreq p)) in *.
-  assert ((if o_ippl o && o_status o
-           then match p_pstat p with
-                | Some act => Some (k8s_determine (resize_infeasible (p_conds p)) l act (p_palloc p))
-                | None => None
-                end
-           else None) = None) as ->.
-  { destruct (o_ippl o && o_status o); [|reflexivity]. rewrite Hippl by reflexivity. reflexivity. }
-  set (ov := map_imap (fun k q => if supported plsup k then Some q else None) l).
-  assert (forall k, ov !! k = match l !! k with Some q => if supported plsup k then Some q else None | None => None end) as Hov.
-  { intros k. unfold ov. rewrite map_lookup_imap. destruct (l !! k); reflexivity. }
+  set (eff := if ippl && ippvs
+              then match p_pstat p with
+                   | Some act => Some (k8s_determine (resize_infeasible (p_conds p)) l act (p_palloc p))
+                   | None => None
+                   end
+              else None).
+  (* upstream's per-name value is the lookup in volcano's effective list *)
+  assert (forall k q, l !! k = Some q ->
+            match eff with Some e => default 0 (e !! k) | None => q end = default 0 (E !! k)) as Heff.
+  { intros k q El. unfold eff, E, vc_pod_level_reqs. fold l. destruct (ippl && ippvs).
+    - destruct (p_pstat p); [reflexivity|]. rewrite El. reflexivity.
+    - rewrite El. reflexivity. }
+  set (ov := map_imap (fun k q => if supported plsup k
+                                  then Some (match eff with Some e => default 0 (e !! k) | None => q end)
+                                  else None) l).
+  assert (forall k, ov !! k = match l !! k with
+                              | Some q => if supported plsup k then Some (default 0 (E !! k)) else None
+                              | None => None end) as Hov.
+  { intros k. unfold ov. rewrite map_lookup_imap. destruct (l !! k) as [q|] eqn:El; [|reflexivity].
+    simpl. rewrite (Heff k q El). reflexivity. }
+  clearbody ov eff. clear Heff.
   split.
   - (* the amended list is still on the grid *)
     intros k q. rewrite lookup_union, Hov.
     destruct (l !! k) as [x|] eqn:El.
     + destruct (supported plsup k); simpl.
-      * destruct (L !! k); simpl; intros [= <-]; exact (Hpl k x El).
+      * destruct (L !! k); simpl; intros [= <-]; apply good_default; exact GE.
       * rewrite opt_union_None_l. apply GL.
     + rewrite opt_union_None_l. apply GL.
   - split; [|split].
@@ -500,8 +534,8 @@ Proof.
       { intros y. rewrite sc_conv_eq. unfold keep.
         rewrite !(bool_decide_eq_false_2 (k = cpu_name)), !(bool_decide_eq_false_2 (k = mem_name)) by assumption.
         rewrite Ht, !orb_true_r. reflexivity. }
-      unfold sget. rewrite scm_new, map_lookup_imap, El. simpl. rewrite Hk. simpl.
-      destruct (L !! k); simpl; rewrite ?Hk; reflexivity.
+      unfold sget. rewrite scm_new, map_lookup_imap.
+      destruct (E !! k) as [y|], (L !! k); simpl; rewrite ?Hk; simpl; rewrite ?cv_0; reflexivity.
 Qed.
 
 (* AddScalar("pods", 1) before the amendment = after it *)
@@ -518,15 +552,16 @@ Proof. reflexivity. Qed.
 Lemma scm_add_scalar r k q : scm (add_scalar r k q) = <[k := sget r k + q]> (scm r).
 Proof. reflexivity. Qed.
 
-Lemma amend_add_scalar plr X p :
-  vc_amend tracked plsup plr (add_scalar X pods_name 1) p =
-  add_scalar (vc_amend tracked plsup plr X p) pods_name 1.
+Lemma amend_add_scalar ippvs plr ippl X p :
+  vc_amend tracked plsup ippvs plr ippl (add_scalar X pods_name 1) p =
+  add_scalar (vc_amend tracked plsup ippvs plr ippl X p) pods_name 1.
 Proof.
   unfold vc_amend.
   set (oh := new_resource (p_overhead p)). set (l := default ∅ (p_plreq p)).
+  set (pr := new_resource (vc_pod_level_reqs ippvs ippl p)).
   set (ov := map_imap (fun (k : positive) (_ : Z) =>
                   if supported plsup k && negb (bool_decide (k = cpu_name)) && negb (bool_decide (k = mem_name))
-                  then Some (sget (new_resource l) k) else None) l).
+                  then Some (sget pr k) else None) l).
   assert (ov !! pods_name = None) as Hovp.
   { unfold ov. rewrite map_lookup_imap. destruct (l !! pods_name); reflexivity. }
   (* the scalar map of X, seen as a map that already has a "pods" entry *)
@@ -558,29 +593,26 @@ Qed.
 
 Theorem volcano_eq_upstream ippvs plr ippl dra p :
   pod_ok p ->
-  (ippl && ippvs = true -> p_pstat p = None) ->
-  (dra = true -> p_claims p = []) ->
-  vc_pod_request tracked plsup ippvs plr p =
+  vc_pod_request tracked plsup ippvs plr ippl dra p =
   add_scalar (new_resource (k8s_pod_requests plsup (opts_of ippvs plr ippl dra) p)) pods_name 1.
 Proof.
-  intros Hok Hippl Hdra. unfold vc_pod_request, k8s_pod_requests.
-  destruct (aggregate_sim ippvs (opts_of ippvs plr ippl dra) p Hok eq_refl Hdra) as (X & -> & HX).
+  intros Hok. unfold vc_pod_request, k8s_pod_requests.
+  destruct (aggregate_sim ippvs dra (opts_of ippvs plr ippl dra) p Hok eq_refl eq_refl) as (X & -> & HX).
   rewrite amend_add_scalar. apply add_scalar_req.
-  destruct (amend_sim plr (opts_of ippvs plr ippl dra) p X _ Hok eq_refl Hippl HX) as [_ H]. exact H.
+  destruct (amend_sim ippvs plr ippl (opts_of ippvs plr ippl dra) p X _ Hok eq_refl eq_refl eq_refl HX) as [_ H].
+  exact H.
 Qed.
 
 (* per dimension, as the property text says it *)
 Corollary volcano_eq_upstream_amounts ippvs plr ippl dra p :
   pod_ok p ->
-  (ippl && ippvs = true -> p_pstat p = None) ->
-  (dra = true -> p_claims p = []) ->
-  let vc := vc_pod_request tracked plsup ippvs plr p in
+  let vc := vc_pod_request tracked plsup ippvs plr ippl dra p in
   let up := new_resource (k8s_pod_requests plsup (opts_of ippvs plr ippl dra) p) in
   cpu vc = cpu up /\ mem vc = mem up /\
   sget vc pods_name = sget up pods_name + 1 /\
   (forall k, k <> pods_name -> scm vc !! k = scm up !! k).
 Proof.
-  intros Hok Hippl Hdra vc up. unfold vc. rewrite (volcano_eq_upstream _ _ _ _ _ Hok Hippl Hdra). fold up.
+  intros Hok vc up. unfold vc. rewrite (volcano_eq_upstream _ _ _ _ _ Hok). fold up.
   repeat split.
   - change (sget (add_scalar up pods_name 1) pods_name)
       with (default 0 (scm (add_scalar up pods_name 1) !! pods_name)).
@@ -592,22 +624,18 @@ Qed.
    Resource order gives the same answer on the two vectors *)
 Corollary fits_iff ippvs plr ippl dra p :
   pod_ok p ->
-  (ippl && ippvs = true -> p_pstat p = None) ->
-  (dra = true -> p_claims p = []) ->
   forall eps free d,
-  less_equal eps (vc_pod_request tracked plsup ippvs plr p) free d =
+  less_equal eps (vc_pod_request tracked plsup ippvs plr ippl dra p) free d =
   less_equal eps (add_scalar (new_resource (k8s_pod_requests plsup (opts_of ippvs plr ippl dra) p)) pods_name 1) free d.
-Proof. intros Hok Hippl Hdra eps free d. rewrite (volcano_eq_upstream _ _ _ _ _ Hok Hippl Hdra). reflexivity. Qed.
+Proof. intros Hok eps free d. rewrite (volcano_eq_upstream _ _ _ _ _ Hok). reflexivity. Qed.
 
 (* the executable law accepts the two models' own outputs *)
 Corollary law_accepts_models ippvs plr ippl dra p :
   pod_ok p ->
-  (ippl && ippvs = true -> p_pstat p = None) ->
-  (dra = true -> p_claims p = []) ->
-  let vc := vc_pod_request tracked plsup ippvs plr p in
+  let vc := vc_pod_request tracked plsup ippvs plr ippl dra p in
   law_task_request (new_resource (k8s_pod_requests plsup (opts_of ippvs plr ippl dra) p)) vc vc vc = true.
 Proof.
-  intros Hok Hippl Hdra vc. unfold vc. rewrite (volcano_eq_upstream _ _ _ _ _ Hok Hippl Hdra).
+  intros Hok vc. unfold vc. rewrite (volcano_eq_upstream _ _ _ _ _ Hok).
   unfold law_task_request, law_same_request, add_scalar. cbn [cpu mem sc].
   rewrite !bool_decide_eq_true_2 by reflexivity. reflexivity.
 Qed.
@@ -636,28 +664,35 @@ Proof. unfold good_status. apply _. Defined.
 Global Instance pod_ok_dec tracked plsup p : Decision (pod_ok tracked plsup p).
 Proof. unfold pod_ok. apply _. Defined.
 
-(* ================= the hypotheses are necessary: refutations ================= *)
+(* ================= refutations ================= *)
 
 Definition all_tracked (k : positive) : bool := true.
 Definition huge_only (k : positive) : bool := bool_decide (k = 7%positive).
 
+(* 1. and 2. are the two divergences the check found on the real code; both were
+   repaired in /repo by fix: commits.  The code BEFORE the fixes never read the
+   gates InPlacePodLevelResourcesVerticalScaling and DRANodeAllocatableResources,
+   i.e. it is this model with ippl = false and dra = false on volcano's side:
+   the witnesses are kept in that form, next to the value after the fix. *)
+
 (* 1. pod-level in-place resize (gate InPlacePodLevelResourcesVerticalScaling,
       on by default in Kubernetes 1.36): upstream counts
       max(spec, status.resources, status.allocatedResources) of the pod-level
-      request, volcano counts the spec only.
+      request, the unfixed code counted the spec only.
       containers [{cpu 100m}], spec.resources.requests.cpu = 1,
-      status.resources.requests.cpu = 2  ->  volcano 1000m, upstream 2000m. *)
+      status.resources.requests.cpu = 2  ->  before 1000m, upstream and after 2000m. *)
 Definition witness_pod_level_resize : pod :=
   mkPod [mkC 1 false {[cpu_name := 100 * nano_per_milli]}] [] [] [] ∅
         (Some {[cpu_name := 1 * nano_per_unit]}) []
         (Some {[cpu_name := 2 * nano_per_unit]}) ∅ [].
 
-Lemma pod_level_resize_refuted :
-  exists p, pod_ok all_tracked huge_only p /\ p_claims p = [] /\
-    cpu (vc_pod_request all_tracked huge_only true true p) = 1000 /\
-    cpu (new_resource all_tracked (k8s_pod_requests huge_only (opts_of true true true false) p)) = 2000.
+Lemma pod_level_resize_refuted_before_fix :
+  exists p, pod_ok all_tracked huge_only p /\
+    cpu (vc_pod_request all_tracked huge_only true true false false p) = 1000 /\
+    cpu (new_resource all_tracked (k8s_pod_requests huge_only (opts_of true true true false) p)) = 2000 /\
+    cpu (vc_pod_request all_tracked huge_only true true true false p) = 2000.
 Proof.
-  exists witness_pod_level_resize. split; [|split; [reflexivity|split; vm_compute; reflexivity]].
+  exists witness_pod_level_resize. split; [|repeat split; vm_compute; reflexivity].
   apply (bool_decide_unpack _). vm_compute. exact I.
 Qed.
 
@@ -666,14 +701,17 @@ Definition witness_dra_claims : pod :=
   mkPod [mkC 1 false {[cpu_name := 1 * nano_per_unit]}] [] [] [] ∅ None [] None ∅
         [{[cpu_name := 1 * nano_per_unit]}].
 
-Lemma dra_claims_refuted :
-  exists p, pod_ok all_tracked huge_only p /\ p_pstat p = None /\
-    cpu (vc_pod_request all_tracked huge_only true true p) = 1000 /\
-    cpu (new_resource all_tracked (k8s_pod_requests huge_only (opts_of true true true true) p)) = 2000.
+Lemma dra_claims_refuted_before_fix :
+  exists p, pod_ok all_tracked huge_only p /\
+    cpu (vc_pod_request all_tracked huge_only true true true false p) = 1000 /\
+    cpu (new_resource all_tracked (k8s_pod_requests huge_only (opts_of true true true true) p)) = 2000 /\
+    cpu (vc_pod_request all_tracked huge_only true true true true p) = 2000.
 Proof.
-  exists witness_dra_claims. split; [|split; [reflexivity|split; vm_compute; reflexivity]].
+  exists witness_dra_claims. split; [|repeat split; vm_compute; reflexivity].
   apply (bool_decide_unpack _). vm_compute. exact I.
 Qed.
+
+(* the remaining three show that each hypothesis of [pod_ok] is necessary *)
 
 (* 3. amounts finer than the grid: two containers of 500 micro-cpu each.
       volcano rounds each up to 1m and adds (2m); upstream adds (1m) and the
@@ -682,8 +720,8 @@ Definition witness_fine : pod :=
   mkPod [mkC 1 false {[cpu_name := 500000]}; mkC 2 false {[cpu_name := 500000]}] [] [] [] ∅ None [] None ∅ [].
 
 Lemma off_grid_refuted :
-  exists p, p_pstat p = None /\ p_claims p = [] /\
-    cpu (vc_pod_request all_tracked huge_only true true p) = 2 /\
+  exists p,
+    cpu (vc_pod_request all_tracked huge_only true true true false p) = 2 /\
     cpu (new_resource all_tracked (k8s_pod_requests huge_only (opts_of true true true false) p)) = 1.
 Proof. exists witness_fine. repeat split; vm_compute; reflexivity. Qed.
 
@@ -694,8 +732,8 @@ Definition witness_collision : pod :=
         [] [mkCS 1 (Some {[cpu_name := 5 * nano_per_unit]}) ∅] ∅ None [] None ∅ [].
 
 Lemma status_name_collision_refuted :
-  exists p, p_pstat p = None /\ p_claims p = [] /\
-    cpu (vc_pod_request all_tracked huge_only true true p) = 1000 /\
+  exists p,
+    cpu (vc_pod_request all_tracked huge_only true true true false p) = 1000 /\
     cpu (new_resource all_tracked (k8s_pod_requests huge_only (opts_of true true true false) p)) = 5000.
 Proof. exists witness_collision. repeat split; vm_compute; reflexivity. Qed.
 
@@ -707,15 +745,16 @@ Definition witness_untracked : pod :=
         (Some {[7%positive := 2 * nano_per_unit]}) [] None ∅ [].
 
 Lemma untracked_pod_level_refuted :
-  exists p, p_pstat p = None /\ p_claims p = [] /\
-    scm (vc_pod_request none_tracked huge_only true true p) !! 7%positive = Some 0 /\
+  exists p,
+    scm (vc_pod_request none_tracked huge_only true true true false p) !! 7%positive = Some 0 /\
     scm (new_resource none_tracked (k8s_pod_requests huge_only (opts_of true true true false) p)) !! 7%positive = None.
 Proof. exists witness_untracked. repeat split; vm_compute; reflexivity. Qed.
 
 (* ================= non-vacuity ================= *)
 
 (* one regular container, init containers  I S I S  (sidecars at positions 2 and 4),
-   a resize status on the first sidecar, pod-level memory + hugepages, overhead *)
+   a resize status on the first sidecar, pod-level memory + hugepages with a
+   pending pod-level resize (actuated memory 200 > spec 128), one DRA claim, overhead *)
 Definition example_pod : pod :=
   mkPod
     [mkC 1 false {[cpu_name := 2 * nano_per_unit; mem_name := 64 * nano_per_unit; 5%positive := 1 * nano_per_unit]}]
@@ -728,14 +767,15 @@ Definition example_pod : pod :=
     {[cpu_name := 100 * nano_per_milli; mem_name := 8 * nano_per_unit]}
     (Some {[mem_name := 128 * nano_per_unit; 7%positive := 6 * nano_per_unit]})
     [(false, true); (true, false)]
-    None ∅ [].
+    (Some {[mem_name := 200 * nano_per_unit]}) {[mem_name := 150 * nano_per_unit]}
+    [{[cpu_name := 1 * nano_per_unit]}].
 
 Example example_pod_ok : pod_ok all_tracked huge_only example_pod.
 Proof. apply (bool_decide_unpack _). vm_compute. exact I. Qed.
 
 Example example_pod_value :
-  let vc := vc_pod_request all_tracked huge_only true true example_pod in
-  let up := new_resource all_tracked (k8s_pod_requests huge_only (opts_of true true true false) example_pod) in
-  (cpu vc, mem vc, sget vc pods_name, sget vc 5, sget vc 7, size (scm vc)) = (3100, 136, 1, 1000, 6000, 3%nat) /\
-  (cpu up, mem up, sget up pods_name, sget up 5, sget up 7, size (scm up)) = (3100, 136, 0, 1000, 6000, 2%nat).
+  let vc := vc_pod_request all_tracked huge_only true true true true example_pod in
+  let up := new_resource all_tracked (k8s_pod_requests huge_only (opts_of true true true true) example_pod) in
+  (cpu vc, mem vc, sget vc pods_name, sget vc 5, sget vc 7, size (scm vc)) = (4100, 208, 1, 1000, 6000, 3%nat) /\
+  (cpu up, mem up, sget up pods_name, sget up 5, sget up 7, size (scm up)) = (4100, 208, 0, 1000, 6000, 2%nat).
 Proof. split; vm_compute; reflexivity. Qed.
